@@ -373,7 +373,7 @@ Proof.
       * pose proof (key_step k cur nx Hk En) as L.
         destruct (IH (S k) nx En) as [f Hf]. { destruct (range_down iv); lia. }
         exists (S f). cbn [run_from]. rewrite Ew, En. cbn [gcons snd]. exact Hf.
-      * exists 1%nat. cbn [run_from]. rewrite Ew, En. cbn. congruence.
+      * exists 1%nat. cbn [run_from]. rewrite Ew, En. destruct (limit_exn ex); cbn; congruence.
     + exists 1%nat. cbn [run_from]. rewrite Ew. cbn. congruence.
 Qed.
 
@@ -404,5 +404,12 @@ Proof.
     unfold dt_le. rewrite SC1.
     destruct (Z.eq_dec (Z.of_nat k * n) 0) as [Ez|Nz]; [rewrite Ez in A; lia|].
     pose proof (nshift_lt (dv_W s) u 0 (Z.of_nat k * n) Hr ltac:(nia)). lia.
+Qed.
+
+(* hence every yielded value is `in` the interval that yielded it: forward, absolute and inverted intervals alike *)
+Theorem range_members_plain_l fuel k x : nth_error (fst (py_range fuel iv u n)) k = Some x -> py_contains iv x = true.
+Proof.
+  intros H. pose proof (range_contained_plain_l fuel k x H) as C. unfold s, e in C. rewrite contains_spec_l.
+  destruct (range_down iv); destruct C as [A B]; rewrite A, B; reflexivity.
 Qed.
 End PlainRange.
